@@ -1,3 +1,4 @@
+#include <nano/core/verif.h>
 #include <nano/solver/bundle.h>
 
 using namespace nano;
@@ -20,12 +21,14 @@ void bundle_t::moveto(const vector_cmap_t y, const vector_cmap_t gy, const scala
     m_x  = y;
     m_gx = gy;
     m_fx = fy;
+    NANO_VERIF_OBJECT("bundle.moveto", this);
 }
 
 void bundle_t::append(const vector_cmap_t y, const vector_cmap_t gy, const scalar_t fy)
 {
     const auto serious_step = false;
     append(y, gy, fy, serious_step);
+    NANO_VERIF_OBJECT("bundle.append", this);
 }
 
 void bundle_t::solve(const scalar_t miu, const logger_t& logger)
